@@ -462,7 +462,8 @@ def gen_box_style(rng, ctx):
     if r() < 0.08:
         st.append('position:%s;%s' % (rng.choice(['relative', 'absolute']), rng.choice(['top:3px;left:5px', 'z-index:%d' % rng.choice([-1, 0, 2]),
                                                                                        'clip:rect(1px, 30px, 20px, 2px)'])))
-    if r() < 0.05:
+    floated = r() < 0.05
+    if floated:
         st.append('float:%s' % rng.choice(['left', 'right']))
     if r() < 0.12:
         st.append('text-decoration:%s %s' % (rng.choice(['underline', 'overline', 'line-through', 'underline overline line-through']),
@@ -478,7 +479,8 @@ def gen_box_style(rng, ctx):
             st.append('font-weight:bold')
     if r() < 0.04:
         st.append('visibility:hidden')
-    if r() < 0.04:
+    # a float that is itself a multi-column box inside a short multi-column box never finishes layout (finding C02-g)
+    if r() < 0.04 and not floated:
         st.append('columns:2;column-rule:' + _border(rng, [1, 3]))
     if r() < 0.04:
         st.append('text-overflow:ellipsis;white-space:nowrap;overflow:hidden;width:30px')
